@@ -224,6 +224,17 @@ def run_shard(shard):
                 big.append({"seconds": sec, "microseconds": us})
                 big.append({"seconds": -sec, "microseconds": -us})
                 big.append({"days": sec // 86400, "seconds": sec % 86400, "microseconds": us})
+        # calendar components that cancel: the 365-/30-day weights of years and months against each other (6 y = 73 mo),
+        # against days/weeks/hours, years against months as a count (1 y = 12 mo), and their neighbours
+        for y, mo in ((6, -73), (-6, 73), (12, -146), (6, -72), (6, -74), (1, -12), (-1, 12), (2, -24), (1, -13), (-30, 365), (30, -365)):
+            for extra in ({}, {"weeks": 1, "days": 3}, {"hours": -5, "microseconds": 1}, {"seconds": 1}):
+                big.append(dict({"years": y, "months": mo}, **extra))
+        for kw in ({"years": 1, "days": -365}, {"years": -1, "days": 365}, {"months": 1, "days": -30}, {"months": -1, "days": 30},
+                   {"years": 1, "hours": -8760}, {"months": 7, "weeks": -30}, {"years": 1, "months": 1, "days": -395},
+                   {"years": 1, "days": -365, "microseconds": 1}, {"months": -1, "days": 30, "microseconds": -1},
+                   {"years": 7, "weeks": -365}, {"weeks": 1, "days": -7}, {"hours": 24, "days": -1}, {"minutes": 1, "seconds": -60},
+                   {"seconds": 1, "milliseconds": -1000}, {"milliseconds": 1, "microseconds": -1000}):
+            big.append(kw)
         it = iter(big)
     for kw in it:
         n += 1
